@@ -2,7 +2,7 @@
 # usage: tools/run_all.sh [quick|thorough]  -- every registered check, one line each
 cd /verif
 T=${1:-quick}
-for P in C01 C02 C03 C04 C05 C06 C07 C08 C09 C10 C11 C12 C13 C14 C15 C16 C17 C18 C19; do
+for P in C01 C02 C03 C04 C05 C06 C07 C08 C09 C10 C11 C12 C13 C14 C15 C16 C17 C18 C19 C20; do
   S=$(date +%s)
   OUT=$( (ulimit -v 10000000; timeout 7200 ./check $P --tier $T) 2>&1 ); RC=$?
   E=$(date +%s)
